@@ -1,8 +1,11 @@
 From Coq Require Import extraction.Extraction extraction.ExtrOcamlBasic.
-From TU Require Import Base C16_Model C16_Machine.
+From TU Require Import Base C16_Model C16_Machine C16_MachinePbs.
 Definition run := run_C16.
 Definition check := check_C16.
-(* the implementation's output equals the unbounded model's, the cluster oracle is the model's segmentation,
-   and the machine-integer model (every usize operation explicit) yields the same output in both profiles *)
-Definition agree (inp m i : val) : bool := val_eqb m i && uax29_agree inp && machine_agree inp m.
+(* the implementation's output (its first four components) equals the unbounded model's, the cluster oracle is
+   the model's segmentation, the machine-integer model (every usize operation explicit) yields the same output
+   in both profiles, and the fifth component (possible_byte_substrings, when the harness ran it) equals the
+   reference model and both profiles of its machine model *)
+Definition agree (inp m i : val) : bool :=
+  val_eqb m (first4 i) && uax29_agree inp && machine_agree inp m && pbs_agree inp i.
 Extraction "model.ml" run check agree.
